@@ -51,6 +51,15 @@ pub fn gzip(data: &[u8]) -> Vec<u8> {
 	e.finish().unwrap()
 }
 
+/// a gzip file of two members (RFC 1952 §2.2: "a gzip file consists of a series of members"; what `cat a.gz b.gz`
+/// or a chunking / flushing compressor produces): decodes to the concatenation
+pub fn gzip_two_members(data: &[u8], split: usize) -> Vec<u8> {
+	let at = split.min(data.len());
+	let mut out = gzip(&data[..at]);
+	out.extend_from_slice(&gzip(&data[at..]));
+	out
+}
+
 pub fn gunzip(data: &[u8]) -> Result<Vec<u8>, String> {
 	let mut d = flate2::read::MultiGzDecoder::new(data);
 	let mut out = Vec::new();
